@@ -1,6 +1,8 @@
 (* C08, buddy allocator: the constructor establishes the invariant; canonical form of an all-free state *)
 From CppcmsV Require Import Base.Tac C08.Defs C08.BuddyArith C08.ProofsBuddy C08.ProofsBuddy2 C08.ProofsBuddy3.
 Local Open Scope N_scope.
+(* lia is never asked to reason about mod here (alignment goes through aligned_mult): keep mod opaque, it is much faster *)
+Local Ltac Zify.zify_post_hook ::= idtac.
 
 (* ---------- constructor ---------- *)
 Record IJ (M pos rem : N) (s : bstate) : Prop := mkIJ {
@@ -34,25 +36,10 @@ Proof.
       split; [apply (aligned_weaken o b (b + 1)); [lia|exact A]|]. split; [lia|exact C].
     + intros o1 b1 o2 b2 H1 H2 Hne. apply geom_some in H1, H2. destruct H1 as [u1 H1]. destruct H2 as [u2 H2].
       destruct (Hpage o1 b1 u1 H1) as (_ & A1 & B1 & C1 & _). destruct (Hpage o2 b2 u2 H2) as (_ & A2 & B2 & C2 & _).
-      pose proof (pow2_succ b1). pose proof (pow2_succ b2). pose proof (pow2_pos b1). pose proof (pow2_pos b2).
+      assert (Hposle : pos <= M) by (clear - Hsum; lia).
       destruct (N.lt_trichotomy o1 o2) as [Hlt|[Heq|Hgt]]; [|contradiction|].
-      * left. (* o1 < o2: o2 is a multiple of 2^(b2+1), ... use M bounds *)
-        destruct (N.le_gt_cases (o1 + 2 ^ b1) o2) as [Hle|Hov]; [exact Hle|exfalso].
-        (* o1 < o2 < o1 + 2^b1 : then M < o1 + 2*2^b1 and o2 + 2^b2 <= M; o2 multiple of 2^(b2+1) *)
-        destruct (N.le_gt_cases b1 b2) as [Hb|Hb].
-        -- apply (aligned_weaken o2 (b1 + 1) (b2 + 1)) in A2; [|lia].
-           apply aligned_mult in A1, A2. destruct A1 as [q1 E1]. destruct A2 as [q2 E2]. rewrite H in *. nia.
-        -- apply (aligned_weaken o1 (b2 + 1) (b1 + 1)) in A1; [|lia].
-           assert (Hp : 2 ^ (b2 + 1) <= 2 ^ b1) by (apply pow2_le; lia).
-           apply aligned_mult in A1, A2. destruct A1 as [q1 E1]. destruct A2 as [q2 E2]. rewrite H0 in *. nia.
-      * right.
-        destruct (N.le_gt_cases (o2 + 2 ^ b2) o1) as [Hle|Hov]; [exact Hle|exfalso].
-        destruct (N.le_gt_cases b2 b1) as [Hb|Hb].
-        -- apply (aligned_weaken o1 (b2 + 1) (b1 + 1)) in A1; [|lia].
-           apply aligned_mult in A1, A2. destruct A1 as [q1 E1]. destruct A2 as [q2 E2]. rewrite H0 in *. nia.
-        -- apply (aligned_weaken o2 (b1 + 1) (b2 + 1)) in A2; [|lia].
-           assert (Hp : 2 ^ (b1 + 1) <= 2 ^ b2) by (apply pow2_le; lia).
-           apply aligned_mult in A1, A2. destruct A1 as [q1 E1]. destruct A2 as [q2 E2]. rewrite H in *. nia.
+      * left. apply (top_disjoint M o1 b1 o2 b2 A1 (N.le_trans _ _ _ B1 Hposle) C1 A2 (N.le_trans _ _ _ B2 Hposle) C2 Hlt).
+      * right. apply (top_disjoint M o2 b2 o1 b1 A2 (N.le_trans _ _ _ B2 Hposle) C2 A1 (N.le_trans _ _ _ B1 Hposle) C1 Hgt).
     + intros x Hx. apply Hcover. lia.
     + intros o b Hg. apply geom_some in Hg. destruct Hg as [u Hh]. apply (Hmax o b u Hh).
     + intros mb H. rewrite Hms. apply (Hmaxsz mb H).
@@ -67,7 +54,6 @@ Proof.
     apply (parity_contra q2 q1 (2 ^ b) Hp). lia.
 Qed.
 
-Set Default Timeout 20.
 Definition init_step (s : bstate) (pos bits : N) : bstate :=
   let s1 := set_fl (set_hdr s pos (Some (bits, false))) bits [pos] in
   match b_maxbits s1 with
@@ -76,13 +62,13 @@ Definition init_step (s : bstate) (pos bits : N) : bstate :=
   end.
 
 Lemma init_step_hdr s pos bits x : b_hdr (init_step s pos bits) x = if x =? pos then Some (bits, false) else b_hdr s x.
-Proof. unfold init_step. cbn. destruct (b_maxbits s); reflexivity. Qed.
+Proof. unfold init_step, set_fl, set_hdr. cbn [b_maxbits b_msize b_hdr b_fl b_err]. destruct (b_maxbits s); reflexivity. Qed.
 Lemma init_step_fl s pos bits b : b_fl (init_step s pos bits) b = if b =? bits then [pos] else b_fl s b.
-Proof. unfold init_step. cbn. destruct (b_maxbits s); reflexivity. Qed.
+Proof. unfold init_step, set_fl, set_hdr. cbn [b_maxbits b_msize b_hdr b_fl b_err]. destruct (b_maxbits s); reflexivity. Qed.
 Lemma init_step_max s pos bits : b_maxbits (init_step s pos bits) = match b_maxbits s with None => Some bits | Some mb => Some mb end.
-Proof. unfold init_step. cbn. destruct (b_maxbits s); reflexivity. Qed.
+Proof. unfold init_step, set_fl, set_hdr. cbn [b_maxbits b_msize b_hdr b_fl b_err]. destruct (b_maxbits s); reflexivity. Qed.
 Lemma init_step_misc s pos bits : b_msize (init_step s pos bits) = b_msize s /\ b_err (init_step s pos bits) = b_err s.
-Proof. unfold init_step. cbn. destruct (b_maxbits s); split; reflexivity. Qed.
+Proof. unfold init_step, set_fl, set_hdr. cbn [b_maxbits b_msize b_hdr b_fl b_err]. destruct (b_maxbits s); split; reflexivity. Qed.
 
 Lemma ij_step M pos rem s bits : IJ M pos rem s -> 2 ^ bits <= rem -> rem < 2 ^ (bits + 1) -> 5 <= bits ->
   IJ M (pos + 2 ^ bits) (rem - 2 ^ bits) (init_step s pos bits).
@@ -98,15 +84,16 @@ Proof.
   assert (Hnopos : b_hdr s pos = None).
   { destruct (b_hdr s pos) as [[b u]|] eqn:E; [|reflexivity]. destruct (Hpage pos b u E) as (_ & _ & B & _). pose proof (pow2_pos b). lia. }
   assert (Hb62 : bits <= 62).
-  { assert (Hlt : 2 ^ bits < 2 ^ 63) by lia. apply N.pow_lt_mono_r_iff in Hlt; lia. }
+  { assert (Hlt : 2 ^ bits < 2 ^ 63) by (clear - Hlo Hsum Hsmall; lia). apply N.pow_lt_mono_r_iff in Hlt; [clear - Hlt; lia|clear; lia]. }
   constructor.
   - rewrite Eerr. exact Herr.
   - rewrite Ems. exact Hms.
-  - lia.
+  - clear - Hsum Hlo. lia.
   - exact Hsmall.
   - intros o b u. rewrite init_step_hdr. destruct (N.eqb_spec o pos) as [->|Hn].
-    + intros [= <- <-]. repeat split; try assumption; lia.
-    + intros H. destruct (Hpage o b u H) as (A & B & C & D & E & F). repeat split; try assumption; lia.
+    + intros [= <- <-]. split; [reflexivity|]. split; [exact Hal1|]. clear Hj2 Hal1 Hal0. repeat split; lia.
+    + intros H. destruct (Hpage o b u H) as (A & B & C & D & E & F).
+      split; [exact A|]. split; [exact B|]. split; [clear - C Hpos; lia|]. split; [exact D|]. split; [exact E|clear - F Hlo; lia].
   - intros x Hx. destruct (N.lt_ge_cases x pos) as [Hlt|Hge].
     + destruct (Hcover x Hlt) as (o & b & Hg & Hr). exists o, b. split; [|exact Hr].
       unfold geom in *. rewrite init_step_hdr. destruct (N.eqb_spec o pos) as [->|]; [rewrite Hnopos in Hg; discriminate|exact Hg].
@@ -119,13 +106,13 @@ Proof.
   - intros o b u. rewrite init_step_hdr, init_step_max. destruct (N.eqb_spec o pos) as [->|Hn].
     + intros [= <- <-]. destruct (b_maxbits s) as [mb|] eqn:Emb; [|exists bits; split; [reflexivity|lia]].
       exists mb. split; [reflexivity|]. destruct (Hmaxsz mb eq_refl) as [Hsz _].
-      assert (Hlt : 2 ^ bits < 2 ^ (mb + 1)) by lia. apply N.pow_lt_mono_r_iff in Hlt; lia.
+      assert (Hlt : 2 ^ bits < 2 ^ (mb + 1)) by (clear - Hsz Hlo Hsum; lia). apply N.pow_lt_mono_r_iff in Hlt; [clear - Hlt; lia|clear; lia].
     + intros H. destruct (Hmax o b u H) as (mb & Hmb & Hle). rewrite Hmb. exists mb. split; [reflexivity|exact Hle].
   - intros mb. rewrite init_step_max. destruct (b_maxbits s) as [mb0|] eqn:Emb.
     + intros [= <-]. apply Hmaxsz. reflexivity.
-    + intros [= <-]. rewrite (Hnone eq_refl) in Hsum. split; [lia|exact Hb62].
+    + intros [= <-]. rewrite (Hnone eq_refl) in Hsum. split; [clear - Hsum Hhi; lia|exact Hb62].
   - rewrite init_step_max. destruct (b_maxbits s); discriminate.
-  - exists bits. split; [lia|]. apply aligned_mult in Hal0. destruct Hal0 as [q ->]. apply aligned_mult. exists (q + 1). lia.
+  - exists bits. split; [clear - Hhi Hsucc Hlo; lia|]. apply aligned_mult in Hal0. destruct Hal0 as [q ->]. apply aligned_mult. exists (q + 1). lia.
 Qed.
 
 Lemma contains_bits_spec rem bits : contains_bits rem = Some bits -> 2 ^ bits <= rem /\ rem < 2 ^ (bits + 1).
@@ -162,7 +149,7 @@ Proof.
     + destruct (contains_bits_spec rem bits Ec) as [Hlo Hhi]. unfold alignment_bits.
       destruct (N.ltb_spec bits (4 + 1)) as [Hlt|Hge].
       * apply Hfin. assert (2 ^ (bits + 1) <= 2 ^ 5) by (apply pow2_le; lia). change (2 ^ 5) with 32 in *. lia.
-      * apply (IH M); [apply ij_step; try assumption; lia|].
+      * apply (IH M); [apply (ij_step M pos rem s bits J Hlo Hhi); lia|].
         assert (Hbf : bits < N.of_nat (S f)).
         { destruct (N.lt_ge_cases bits (N.of_nat (S f))) as [H|H]; [exact H|]. assert (2 ^ N.of_nat (S f) <= 2 ^ bits) by (apply pow2_le; exact H). lia. }
         pose proof (pow2_succ bits). assert (2 ^ bits <= 2 ^ N.of_nat f) by (apply pow2_le; lia). lia.
@@ -174,10 +161,17 @@ Theorem init_ok memory_size : memory_size - self_size < 2 ^ 63 ->
   (forall o b, ~ used (b_init memory_size) o b).
 Proof.
   intros Hs. unfold b_init. apply init_loop_inv; [|change (2 ^ N.of_nat 64) with (2 * 2 ^ 63); lia].
-  constructor; cbn; try reflexivity; try discriminate; try (intros; discriminate); try lia.
+  constructor; cbn [b_err b_msize b_hdr b_fl b_maxbits].
+  - reflexivity.
+  - reflexivity.
+  - lia.
   - exact Hs.
+  - intros o b u H. discriminate.
   - intros x Hx. lia.
   - intros o b. split; [intros []|discriminate].
   - intros b. constructor.
+  - intros o b u H. discriminate.
+  - intros mb H. discriminate.
+  - reflexivity.
   - exists 63. split; [exact Hs|reflexivity].
 Qed.
